@@ -872,6 +872,27 @@ theorem ready_ensure {c c' : Cl} (h : Ready c) (hg : c'.hasGroup = c.hasGroup) (
   · refine ⟨hg ▸ h.hasGroup, by rw [x, ensureSecret_active]; exact h.act, hr ▸ h.ret, by rw [x]; exact secretsOK_ensure _ h.sec,
       fun s hs => by rw [x, ensureSecret_path]; exact h.below s (hm ▸ hs), by rw [x, ensureSecret_recNid, ensureSecret_nid]; exact h.nid⟩
 
+/-- what no delivery inside a slot changes of the group state: the MLS path, the retained past states, the stored exporter
+    secrets (up to caching the current one), the id in force -/
+structure GKeep (g0 g : GState) : Prop where
+  path : g.path = g0.path
+  past : g.past = g0.past
+  secrets : (ensureSecret g).secrets = (ensureSecret g0).secrets
+  recNid : g.recNid = g0.recNid
+
+theorem gkeep_refl (g : GState) : GKeep g g := ⟨rfl, rfl, rfl, rfl⟩
+
+theorem GKeep.trans {g0 g1 g2 : GState} (h1 : GKeep g0 g1) (h2 : GKeep g1 g2) : GKeep g0 g2 :=
+  ⟨h2.path.trans h1.path, h2.past.trans h1.past, h2.secrets.trans h1.secrets, h2.recNid.trans h1.recNid⟩
+
+theorem gkeep_quiet {n : Nat} {c c' : Cl} (hq : Quiet n c c') : GKeep c.g c'.g := by
+  rcases hq.g with x | x <;> rw [x]
+  · exact gkeep_refl _
+  · exact ⟨ensureSecret_path _, (ensureSecret_fields c.g).2.2.2.2.2.2.2.2.2.2.2, by rw [ensureSecret_idem], ensureSecret_recNid _⟩
+
+theorem gkeep_stored {c c' : Cl} {e : Ev} {row : MsgRow} (hs : AppStored c e row c') : GKeep c.g c'.g :=
+  ⟨hs.path, hs.past, by rw [hs.fix]; exact hs.secrets, hs.recNid⟩
+
 /-- what the client looks like inside a slot, after the delivery list `dl`, relative to its state `c0` at the start of the
     slot: same configuration, snapshots, MLS state and group data; consumed generations and dedup records grew only by
     the delivered events; every delivered message of the slot has its row; no other row was touched -/
@@ -891,10 +912,11 @@ structure SlotInv (c0 : Cl) (M : List Ev) (dl : List Ev) (c : Cl) : Prop where
     findRow row.mid c.msgs = some row ∧ e.cipher ∈ c.g.consumed
   uniq : Uniq c.msgs
   dlOK : ∀ e ∈ dl, e ∈ M ∨ StaleSlot c0.g.path M e
+  gk : GKeep c0.g c.g
 
 theorem slotInv_init (c0 : Cl) (M : List Ev) (hr : Ready c0) (hu : Uniq c0.msgs) : SlotInv c0 M [] c0 :=
   ⟨rfl, rfl, rfl, rfl, rfl, hr, rfl, rfl, fun _ hx => Or.inl hx, fun _ _ => rfl, fun _ _ => rfl,
-   fun e he => (by cases he), hu, fun e he => (by cases he)⟩
+   fun e he => (by cases he), hu, fun e he => (by cases he), gkeep_refl _⟩
 
 theorem slotInv_quiet {c0 c c' : Cl} {M dl : List Ev} {x : Ev} (h : SlotInv c0 M dl c) (hq : Quiet x.n c c')
     (hpers : c'.persistent = c.persistent) (hx : x ∈ M → x ∈ dl) (hok : x ∈ M ∨ StaleSlot c0.g.path M x) :
@@ -908,7 +930,7 @@ theorem slotInv_quiet {c0 c c' : Cl} {M dl : List Ev} {x : Ev} (h : SlotInv c0 M
     exact core_ensureSecret _
   refine ⟨hq.id.trans h.id, hpers.trans h.persistent, hq.retention.trans h.retention, hq.maxPast.trans h.maxPast,
     hq.mgr.trans h.mgr, ready_ensure h.ready hq.hasGroup hq.retention hq.mgr hq.g, hpath.trans h.path, hcore.trans h.core,
-    ?_, ?_, ?_, ?_, hq.msgs ▸ h.uniq, ?_⟩
+    ?_, ?_, ?_, ?_, hq.msgs ▸ h.uniq, ?_, h.gk.trans (gkeep_quiet hq)⟩
   rotate_right
   · intro e he
     rcases List.mem_append.mp he with y | y
@@ -980,7 +1002,8 @@ theorem slot_step (c0 : Cl) (M dl : List Ev) (c : Cl) (x : Ev) (nx : Nat) (hb : 
         hs.mgr.trans h.mgr,
         ⟨hs.hasGroup ▸ h.ready.hasGroup, hs.active ▸ h.ready.act, hs.retention ▸ h.ready.ret, hs.secretsOK h.ready.sec,
           fun s hm => by rw [hs.path]; exact h.ready.below s (hs.mgr ▸ hm), by rw [hs.recNid, hs.nid]; exact h.ready.nid⟩,
-        hs.path.trans h.path, hs.core.trans h.core, ?_, ?_, ?_, ?_, by rw [hs.msgs]; exact uniq_upsertRow _ _ h.uniq, ?_⟩
+        hs.path.trans h.path, hs.core.trans h.core, ?_, ?_, ?_, ?_, by rw [hs.msgs]; exact uniq_upsertRow _ _ h.uniq, ?_,
+        h.gk.trans (gkeep_stored hs)⟩
       · intro y hy
         rw [hs.consumed] at hy
         rcases List.mem_cons.mp hy with z | z
@@ -1165,6 +1188,17 @@ structure LevelSlotDone (c : Cl) (w : Ev) (T M l m : List Ev) (c2 : Cl) : Prop w
     (∀ o, P o → P (o.map (rbRow (epochOf c.g.path)))) → P (findRow mid c.msgs) → P (findRow mid c2.msgs)
   unseen : ∀ n, getRec c n = none → (∀ e ∈ l ++ m, n ≠ e.n) → getRec c2 n = none
   cons : ∀ x ∈ c2.g.consumed, x ∈ c.g.consumed ∨ (∃ e ∈ T, e.cipher = x) ∨ (∃ e ∈ M, e.cipher = x)
+  /-- the retained past states, the stored exporter secrets and the id in force after the level and its slot -/
+  past : c2.g.past = (c.g.path :: c.g.past).take c.maxPast
+  secrets : (ensureSecret c2.g).secrets = secretsAfter (c.g.path ++ [w.cipher]) (secretsAfter c.g.path c.g.secrets)
+  sec0 : alookup (epochOf c.g.path) (secretsAfter c.g.path c.g.secrets) = some c.g.path
+  recNid : c2.g.recNid = c.g.recNid
+
+theorem secretsAfter_idem (p : Path) (S : List (Nat × Path)) : secretsAfter p (secretsAfter p S) = secretsAfter p S := by
+  unfold secretsAfter
+  cases h : alookup (epochOf p) S with
+  | some q => simp [h]
+  | none => simp [alookup_ainsert_self]
 
 /-- **one level and its slot**: a client at the fork `T` in either role, the level's delivery list `l` (all of `T`, any
     order, any repetition, stale events interleaved), then any list `m` over the messages `M` created in the state the
@@ -1198,7 +1232,20 @@ theorem msg_level_slot (nx : Nat) (c : Cl) (w : Ev) (T M l m : List Ev) (hat : A
   rw [List.nil_append] at hslot
   refine ⟨hslot.path.trans hd.path, hslot.core.trans hd.core, hslot.id.trans hd.form.id,
     hslot.persistent.trans (run_persistent nx l c), hslot.retention.trans hd.form.ret, hslot.maxPast.trans hd.form.mp,
-    hslot.ready, hslot.uniq, ?_, ?_, ?_, ?_⟩
+    hslot.ready, hslot.uniq, ?_, ?_, ?_, ?_, ?_, ?_, ?_, hslot.gk.recNid.trans hd.keptId⟩
+  rotate_left 4
+  · obtain ⟨b, sw, hk⟩ := hd.com.kind
+    have := (wc_fields hd.g).2.2.2.2.2.2.2.2.2.2.2.2.1
+    rw [childOfG_commit c.maxPast c.g w b sw hk] at this
+    rw [hslot.gk.past, this]
+  · obtain ⟨b, sw, hk⟩ := hd.com.kind
+    have := (wc_fields hd.g).2.2.2.2.2.2.2.2.2.2.2.1
+    rw [childOfG_commit c.maxPast c.g w b sw hk] at this
+    rw [hslot.gk.secrets, ensureSecret_eq, hd.path, this]
+    exact secretsAfter_idem _ _
+  · have := gP_sec0 c hd.base
+    rw [gP, ensureSecret_eq] at this
+    exact this
   · intro e he heM row hr
     rw [← hd.epoch] at hr
     exact (hslot.done e he heM row hr).1
@@ -1214,6 +1261,60 @@ theorem msg_level_slot (nx : Nat) (c : Cl) (w : Ev) (T M l m : List Ev) (hat : A
       · exact Or.inl z
       · exact Or.inr (Or.inl z)
     · exact Or.inr (Or.inr ⟨e, heM, y⟩)
+
+/-! ### retained past states (the past-epoch window along a chain) -/
+
+/-- the state with path `q`, `d ≥ 1` epochs back, is a retained past state of `g` (at position `d - 1` of `past`, the most
+    recent first) whose exporter secret is stored -/
+structure Retained (g : GState) (q : Path) (d : Nat) : Prop where
+  pos : 1 ≤ d
+  past : g.past[d - 1]? = some q
+  secret : alookup (epochOf q) (ensureSecret g).secrets = some q
+  epoch : epochOf q + d = epochOf g.path
+
+theorem Retained.contains {g : GState} {q : Path} {d : Nat} (h : Retained g q d) : g.past.contains q = true := by
+  have := List.mem_of_getElem? h.past
+  simpa using this
+
+/-- the outer layer opens an event of a retained past state at most `DEFAULT_EPOCH_LOOKBACK = 5` epochs back -/
+theorem outerOpens_retained {g : GState} {q : Path} {d : Nat} (h : Retained g q d) (hd : d ≤ 5) (e : Ev) (hp : e.path = q) :
+    outerOpens (ensureSecret g) e = true := by
+  have hpos := h.pos
+  have hep := h.epoch
+  simp only [outerOpens, Bool.or_eq_true, List.any_eq_true]
+  right
+  refine ⟨d - 1, by simp; omega, ?_⟩
+  have e1 : d - 1 + 1 = d := by omega
+  have e2 : epochOf (ensureSecret g).path - d = epochOf q := by rw [ensureSecret_path]; omega
+  rw [e1, e2, h.secret, hp]
+  simp
+  omega
+
+theorem retained_step {c c2 : Cl} {w : Ev} {T M l m : List Ev} (h1 : LevelSlotDone c w T M l m c2) :
+    (∀ q d, Retained c.g q d → d + 1 ≤ c.maxPast → Retained c2.g q (d + 1)) ∧
+    (1 ≤ c.maxPast → Retained c2.g c.g.path 1) := by
+  have hpath : epochOf c2.g.path = epochOf c.g.path + 1 := by rw [h1.path, epochOf_snoc]
+  constructor
+  · intro q d hr hd
+    have hpos := hr.pos
+    refine ⟨by omega, ?_, ?_, by rw [hpath]; have := hr.epoch; omega⟩
+    · rw [h1.past, List.getElem?_take]
+      have : d + 1 - 1 < c.maxPast := by omega
+      rw [if_pos this]
+      have e1 : d + 1 - 1 = (d - 1) + 1 := by omega
+      rw [e1, List.getElem?_cons_succ]
+      exact hr.past
+    · rw [h1.secrets, alookup_secretsAfter_ne _ _ _ (by rw [epochOf_snoc]; have := hr.epoch; omega)]
+      have := hr.secret
+      rw [ensureSecret_eq] at this
+      exact this
+  · intro hmp
+    refine ⟨Nat.le_refl _, ?_, ?_, by rw [hpath]⟩
+    · rw [h1.past, List.getElem?_take]
+      simp
+      omega
+    · rw [h1.secrets, alookup_secretsAfter_ne _ _ _ (by rw [epochOf_snoc]; omega)]
+      exact h1.sec0
 
 /-! ### chains of levels with their slots -/
 
@@ -1268,9 +1369,18 @@ structure MsgDone (c : Cl) (Ls : List Level) (Ms : List (List Ev)) (sched : List
   kept : ∀ mid, (∀ e ∈ Ms.flatten, appMid e ≠ some mid) →
     (findRow mid c.msgs = none → findRow mid c'.msgs = none) ∧
     (∀ row, findRow mid c.msgs = some row → row.epoch ≤ epochOf c.g.path → findRow mid c'.msgs = some row)
+  recNid : c'.g.recNid = c.g.recNid
+  unseen : ∀ n, getRec c n = none → (∀ e ∈ flat sched, n ≠ e.n) → getRec c' n = none
+  cons : ∀ x ∈ c'.g.consumed, x ∈ c.g.consumed ∨ ∃ e ∈ evs Ls ++ Ms.flatten, e.cipher = x
+  /-- a retained past state stays retained as long as it is at most `max_past_epochs` back -/
+  retained : ∀ q d, Retained c.g q d → d + Ls.length ≤ c.maxPast → Retained c'.g q (d + Ls.length)
+  /-- the states the client went through are retained: the state after level k, `d` epochs back (k + d = number of levels) -/
+  own : ∀ k d, k + d = Ls.length → 1 ≤ d → d ≤ c.maxPast →
+    Retained c'.g (c.g.path ++ (Ls.map (·.1.cipher)).take k) d
 
 theorem msgDone_nil (c : Cl) (hr : Ready c) (hu : Uniq c.msgs) : MsgDone c [] [] [] c :=
-  ⟨by simp, rfl, rfl, rfl, rfl, rfl, hr, hu, fun k lm M h => by simp at h, fun _ _ => ⟨id, fun _ h _ => h⟩⟩
+  ⟨by simp, rfl, rfl, rfl, rfl, rfl, hr, hu, fun k lm M h => by simp at h, fun _ _ => ⟨id, fun _ h _ => h⟩, rfl,
+   fun _ h _ => h, fun _ h => Or.inl h, fun _ _ h _ => h, fun k d h1 h2 _ => by simp at h1; omega⟩
 
 /-- a level with its slot followed by the rest of the chain -/
 theorem msgDone_cons {c c2 c' : Cl} {w : Ev} {T M l m : List Ev} {Ls : List Level} {Ms : List (List Ev)}
@@ -1279,7 +1389,46 @@ theorem msgDone_cons {c c2 c' : Cl} {w : Ev} {T M l m : List Ev} {Ls : List Leve
     MsgDone c ((w, T) :: Ls) (M :: Ms) ((l, m) :: rest) c' := by
   have hep : epochOf c2.g.path = epochOf c.g.path + 1 := by rw [h1.path, epochOf_snoc]
   refine ⟨?_, ?_, h2.id.trans h1.id, h2.persistent.trans h1.persistent, h2.retention.trans h1.retention,
-    h2.maxPast.trans h1.maxPast, h2.ready, h2.uniq, ?_, ?_⟩
+    h2.maxPast.trans h1.maxPast, h2.ready, h2.uniq, ?_, ?_, h2.recNid.trans h1.recNid, ?_, ?_, ?_, ?_⟩
+  rotate_left 4
+  · intro n hn hne
+    refine h2.unseen n (h1.unseen n hn (fun e he => hne e ?_)) (fun e he => hne e ?_)
+    · rw [flat_cons]
+      rcases List.mem_append.mp he with x | x
+      · exact List.mem_append_left _ x
+      · exact List.mem_append_right _ (List.mem_append_left _ x)
+    · rw [flat_cons]
+      exact List.mem_append_right _ (List.mem_append_right _ he)
+  · intro x hx
+    rcases h2.cons x hx with y | ⟨e, he, y⟩
+    · rcases h1.cons x y with z | ⟨e, he, z⟩ | ⟨e, he, z⟩
+      · exact Or.inl z
+      · exact Or.inr ⟨e, by simp [he], z⟩
+      · exact Or.inr ⟨e, by simp [he], z⟩
+    · refine Or.inr ⟨e, ?_, y⟩
+      rcases List.mem_append.mp he with z | z
+      · simp [z]
+      · simp [z]
+  · intro q d hr hd
+    simp only [List.length_cons] at hd
+    have r1 := (retained_step h1).1 q d hr (by omega)
+    have r2 := h2.retained q (d + 1) r1 (by rw [h1.maxPast]; omega)
+    have : d + 1 + Ls.length = d + (((w, T) :: Ls).length) := by simp only [List.length_cons]; omega
+    rw [this] at r2
+    exact r2
+  · intro k d hkd hd1 hdm
+    simp only [List.length_cons] at hkd
+    cases k with
+    | zero =>
+      have r1 := (retained_step h1).2 (by omega)
+      have r2 := h2.retained c.g.path 1 r1 (by rw [h1.maxPast]; omega)
+      have : 1 + Ls.length = d := by omega
+      rw [this] at r2
+      simpa using r2
+    | succ k' =>
+      have r2 := h2.own k' d (by omega) hd1 (by rw [h1.maxPast]; exact hdm)
+      rw [h1.path] at r2
+      simpa [List.take_succ_cons] using r2
   · rw [h2.path, h1.path]; simp
   · rw [h2.core, h1.core]; rfl
   · intro k lm M' hk hM' e he heM row hr
